@@ -481,6 +481,75 @@ def matrix_valued_search(ctx):
     ctx.ob("C05_search_matrix_valued", bad == 0, "search", f"{bad} failures" if bad else "")
 
 
+def fused_search(ctx):
+    """fused gates whose members carry controls added by `controlled_by` (H, Unitary, RX with two
+    controls, fSim …) next to members with built-in controls: `FusedGate.dagger()`, the inverse of
+    a fused circuit and the relabelled fused gate are the adjoint / relabelled operator of the
+    members' product (explicit product of independently embedded matrices)."""
+    from qibo import Circuit, gates
+
+    nb = qgates.np_backend()
+    rng = ctx.rng
+    bad = 0
+
+    def member(n):
+        """(python source, builder) of a random member gate on n qubits"""
+        r = rng.random()
+        qs = list(range(n))
+        rng.shuffle(qs)
+        th = round(rng.uniform(-3, 3), 4)
+        if r < 0.2:
+            return f"gates.H({qs[0]}).controlled_by({qs[1]})"
+        if r < 0.4 and n >= 3:
+            return f"gates.RX({qs[0]}, {th}).controlled_by({qs[1]}, {qs[2]})"
+        if r < 0.55 and n >= 3:
+            return f"gates.fSim({qs[0]}, {qs[1]}, {th}, 0.7).controlled_by({qs[2]})"
+        if r < 0.7:
+            return f"gates.Unitary(np.array([[0.6, 0.8j], [0.8j, 0.6]]) @ np.diag([1, np.exp(1j * {th})]), {qs[0]}).controlled_by({qs[1]})"
+        if r < 0.8:
+            return f"gates.CU3({qs[0]}, {qs[1]}, {th}, 0.3, -1.1)"
+        if r < 0.9:
+            return f"gates.RY({qs[0]}, {th})"
+        return f"gates.CNOT({qs[0]}, {qs[1]})"
+
+    ncases = 60 if ctx.thorough else 24
+    for it in range(ncases):
+        n = rng.randint(2, 4)
+        members = [member(n) for _ in range(rng.randint(2, 5))]
+        perm = list(range(n))
+        rng.shuffle(perm)
+        pre = ("import sys, numpy as np\nfrom qibo import gates, Circuit\nfrom qibo.backends import NumpyBackend\nnb = NumpyBackend()\n"
+               f"n = {n}\nmembers = lambda: [{', '.join(members)}]\n"
+               "def full(g):\n    c = Circuit(n); c.add(g); return np.asarray(c.unitary(nb))\n"
+               "U = np.eye(2 ** n, dtype=complex)\nfor g in members():\n    U = full(g) @ U\n"
+               "f = gates.FusedGate(*range(n))\nfor g in members():\n    f.append(g)\n")
+        checks = [
+            ("fused:dagger", "np.abs(full(f.dagger()) - U.conj().T).max()"),
+            ("fused:dagger-twice", "np.abs(full(f.dagger().dagger()) - U).max()"),
+            ("fused:circuit-invert", "(lambda c: np.abs(np.asarray(c.fuse().invert().unitary(nb)) - U.conj().T).max())((lambda c: (c.add(members()), c)[1])(Circuit(n)))"),
+            ("fused:invert-fuse", "(lambda c: np.abs(np.asarray(c.invert().fuse().unitary(nb)) - U.conj().T).max())((lambda c: (c.add(members()), c)[1])(Circuit(n)))"),
+            ("fused:on_qubits", f"(lambda P: np.abs(full(f.on_qubits(dict(enumerate({perm})))) - P @ U @ P.T).max())(np.eye(2 ** n)[[sum(((i >> (n - 1 - q)) & 1) << (n - 1 - {perm}[q]) for q in range(n)) for i in range(2 ** n)]].T)"),
+        ]
+        for key, expr in checks:
+            ctx.case((key, it))
+            ctx.stat(key)
+            env = {}
+            try:
+                exec(pre, env)  # noqa: S102 - own generated text, identical to the replay
+                d = float(eval(expr, env))  # noqa: S307
+                failed, obs = not d < 1e-9, d
+            except NotImplementedError:
+                ctx.stat(key + ":refused")
+                continue
+            except Exception as e:  # noqa: BLE001
+                failed, obs = True, f"raises {type(e).__name__}: {e}"
+            if failed:
+                bad += 1
+                ctx.fail(key, f"{key.split(':')[1]} of a fused gate with members {members} on {n} qubits is not the adjoint / relabelling of the members' product (deviation {obs})",
+                         pre + f"d = {expr}\nprint(d)\nsys.exit(0 if d < 1e-9 else 1)\n", observed=str(obs)[:300], broken=["C05_search_fused"])
+    ctx.ob("C05_search_fused", bad == 0, "search", f"{bad} failures" if bad else "")
+
+
 def run(ctx):
     MODULES, THEOREMS = registry(PROP)
     ctx.theorems = THEOREMS
@@ -489,4 +558,5 @@ def run(ctx):
     gate_search(ctx, raised)
     circuit_search(ctx)
     matrix_valued_search(ctx)
+    fused_search(ctx)
     ctx.notes.append("per class: symbolic obligations (all parameter values) for dagger, dagger∘controlled_by, controlled_by(1,2), on_qubits, and the same after a parameter update; numeric search on the real methods incl. 3 controls and random relabellings; random circuits for invert/copy/+/on_qubits")
